@@ -48,7 +48,9 @@ class World:
         self.FLOATREPR = z3.Function("float_repr", z3.RealSort(), z3.StringSort())
         self.STRREPR = z3.Function("str_repr", z3.StringSort(), z3.StringSort())
         self.HNUM = z3.Function("hash_num", z3.RealSort(), z3.IntSort())
-        self.HSTR = z3.Function("hash_str", z3.StringSort(), z3.IntSort())
+        # str hashes are randomised per process (PYTHONHASHSEED): a function of the process as well as of the text; a relational
+        # unit runs the code under two values of it.ghost["process"]
+        self.HSTR = z3.Function("hash_str", z3.IntSort(), z3.StringSort(), z3.IntSort())
         self.BITFN = {k: z3.Function("py_bit" + k, z3.IntSort(), z3.IntSort(), z3.IntSort())
                       for k in ("and", "or", "xor")}
         self.UPPER = z3.Function("str_upper", z3.StringSort(), z3.StringSort())
@@ -581,6 +583,12 @@ class World:
                 return mk_float(z3.If(zr(v) >= 0, zr(v), -zr(v)))
             it.guard(False, "TypeError", n, "bad operand type for abs()")
 
+        @reg("divmod")
+        def _divmod(it, a, k, n):
+            if len(a) != 2 or k or not (is_intlike(a[0]) and is_intlike(a[1])):
+                it.unsupported("divmod() other than of two ints", n)
+            return (it.binop(ast.FloorDiv(), a[0], a[1], n), it.binop(ast.Mod(), a[0], a[1], n))
+
         @reg("min")
         def _min(it, a, k, n):
             return self._minmax(it, a, n, True)
@@ -899,7 +907,8 @@ class World:
         if is_numlike(v):
             return mk_int(self.HNUM(zr(v)))
         if is_strlike(v):
-            return mk_int(self.HSTR(zs(v)))
+            proc = it.ghost.get("process")
+            return mk_int(self.HSTR(proc if proc is not None else z3.Int("process"), zs(v)))
         if v is None:
             return 0
         if isinstance(v, tuple):
